@@ -6,7 +6,7 @@
    functions makes [roundtrip_ok] evaluate to false and the corresponding obligation fail. *)
 From Coq Require Import String ZArith List Bool Lia.
 From DV Require Import Model.ByteEnc Gen.HashOrder Model.Hashes Model.CodecVocab Model.Codec
-  Proofs.HashesProofs Proofs.CodecProofs Gen.Mirrors Proofs.CodecGen.
+  Proofs.HashesProofs Proofs.CodecProofs Gen.Mirrors Proofs.CodecGen Proofs.CodecDisk.
 Import ListNotations.
 Open Scope string_scope.
 Open Scope Z_scope.
@@ -85,6 +85,21 @@ Proof.
   destruct (path_eqb ["Signature"] leaf) eqn:E3; [apply path_eqb_eq in E3; subst; injection G as <-; vm_compute in LC; injection LC as <-; exists [1; 2; 255]; split; reflexivity|].
   discriminate G.
 Qed.
+
+(* ---- the disk path: the key store behaves as one register per file. For EVERY history of
+   SaveKeyPair / SaveShare / SaveGroup / Load* / Reset on one store, a load returns exactly the
+   value written last to that file (nothing after a Reset for the share and the group); the codec
+   engine replays generated histories - values growing AND shrinking - on the real
+   key.NewFileStore and compares every load with this model ---- *)
+Theorem C20_disk_last_written : forall ops f,
+  snd (disk_run disk_init (ops ++ [DLoad f])) = snd (disk_run disk_init ops) ++ [last_written f (rev ops)].
+Proof. exact disk_load_last_written. Qed.
+Print Assumptions C20_disk_last_written.
+
+Example C20_disk_nonvacuous :
+  snd (disk_run disk_init [DSave FShare 0; DLoad FShare; DSave FShare 1; DLoad FShare; DSave FPair 2; DReset; DLoad FShare; DLoad FPair]) =
+    [Some 0; Some 1; None; Some 2].
+Proof. reflexivity. Qed.
 
 (* ---- fields of a mirror struct that no conversion writes / reads (stated, so that a new one
         is noticed): DBStateTOML.TransitionTime and ShareTOML.PrivatePoly have no source ---- *)
